@@ -281,19 +281,25 @@ func diffCase(in caseInput, cfgs []config, o diffOpts) diffOut {
 				continue
 			case "budget":
 				var mech []string
-				if o.Lockstep || c.V == "mvp6-0" || c.V == "mvp6-1" {
+				if cls := variantClass(c.V); o.Lockstep || cls >= 6 {
 					// what did the machine do before it stopped making progress? (a termination-only
 					// check records no events: the hanging run is repeated once with the event log on)
-					lg := obs.Log
+					lobs := &obs
 					if !o.Lockstep {
-						lg = runMachine(c, in.Src, in.Regs, in.Mem, runOpts{Budget: budget, Log: true, MaxLog: 400000}).Log
+						again := runMachine(c, in.Src, in.Regs, in.Mem, runOpts{Budget: budget, Log: true, MaxLog: 400000})
+						lobs = &again
 					}
-					_, st, _ := buildDyn(c, lg)
+					dyn, st, _ := buildDyn(c, lobs.Log)
 					if st.SquashedRegWB > 0 && (c.V == "mvp6-0" || c.V == "mvp6-1") {
 						mech = append(mech, "wrong-path-regwrite")
 					}
 					if st.SquashedStores > 0 {
 						mech = append(mech, "wrong-path-store")
+					}
+					for _, m := range mechanismSignatures(p, dyn, lobs) {
+						if m == "commit-with-older-in-flight" {
+							mech = append(mech, m)
+						}
 					}
 				}
 				add(finding{Config: c, Class: "budget", Mech: mech, Site: tickSiteName(obs.Site), Detail: fmt.Sprintf("tick budget %d exhausted in the %s (tick site %d; reference executed %d instructions)", budget, tickSiteName(obs.Site), obs.Site, ref.Steps)})
@@ -327,11 +333,14 @@ func diffCase(in caseInput, cfgs []config, o diffOpts) diffOut {
 			fd := finalDiff(ref, &obs)
 			var wrongPath map[int][]int32
 			var lsMech []string
+			var lsDyn []dynIns
+			var lsSurv []int
 			if o.Lockstep {
 				ls := lockstep(c, p, ref, &obs)
 				accStats(out.Stats, c, ls.Stats)
 				wrongPath = squashedRegVals(ls.Dyn, &obs)
 				lsMech = ls.Mech
+				lsDyn, lsSurv = ls.Dyn, ls.Surv
 				if !ls.OK {
 					add(finding{Config: c, Class: ls.Class, Sub: ls.Sub, Detail: ls.Detail, Step: ls.Step, Final: fd != "", Extra: fd, Mech: ls.Mech})
 					if fd == "" {
@@ -341,6 +350,15 @@ func diffCase(in caseInput, cfgs []config, o diffOpts) diffOut {
 				}
 			}
 			if fd != "" {
+				if o.Lockstep && lsSurv != nil && len(lsSurv) >= len(ref.Trace) {
+					var wrong []int
+					for r := 1; r < 32; r++ {
+						if obs.Regs[r] != ref.Regs[r] {
+							wrong = append(wrong, r)
+						}
+					}
+					lsMech = append(append([]string{}, lsMech...), commitMechanisms(p, ref, lsDyn, lsSurv, &obs, wrong, len(ref.Trace))...)
+				}
 				add(finding{Config: c, Class: "final-state", Sub: explainFinal(p, ref, &obs, wrongPath), Detail: fd, Final: true, Step: -1, Mech: lsMech})
 			}
 		}
